@@ -102,7 +102,7 @@ const OPTS: [(&str, usize); 21] = [
     ("home_network", 2),
     ("upnp", 2),
     ("user_mode", 2),
-    ("env", 2),
+    ("env", 3),
     ("network_id", 2),
     ("auto_restart", 2),
 ];
@@ -153,7 +153,12 @@ fn build_options(choice: &[usize], evm: usize, dir: &Path) -> (AddNodeServiceOpt
         count: Some(1),
         delete_antnode_src: false,
         enable_metrics_server: false,
-        env_variables: if c("env") == 1 { Some(vec![("ANT_LOG".to_string(), "all".to_string()), ("K".to_string(), "v w".to_string())]) } else { None },
+        env_variables: match c("env") {
+            1 => Some(vec![("ANT_LOG".to_string(), "all".to_string()), ("K".to_string(), "v w".to_string())]),
+            // variables the node itself reads: the definition's environment is part of how the node is launched
+            2 => Some(vec![("ANT_PEERS".to_string(), peer_addr(9).to_string()), ("ANT_LOG".to_string(), "all".to_string())]),
+            _ => None,
+        },
         evm_network,
         home_network: c("home_network") == 1,
         log_format: match c("log_format") {
@@ -253,8 +258,14 @@ fn auto_restart_expr_in_cmd_node() -> Option<String> {
     Some(line.trim().trim_start_matches("auto_restart:").trim().trim_end_matches(',').to_string())
 }
 
-fn run_antnode(bin: &Path, args: &[std::ffi::OsString]) -> (Option<i32>, String, String) {
-    let out = std::process::Command::new(bin).args(args).env("ANTNODE_VERIF_DUMP_OPT", "1").env_remove("ANT_PEERS").output();
+/// The node binary is launched as the service manager would launch the definition: its arguments and its environment.
+fn run_antnode(bin: &Path, args: &[std::ffi::OsString], environment: &Option<Vec<(String, String)>>) -> (Option<i32>, String, String) {
+    let mut cmd = std::process::Command::new(bin);
+    cmd.args(args).env_remove("ANT_PEERS").env_remove("ANT_LOG");
+    for (k, v) in environment.iter().flatten() {
+        cmd.env(k, v);
+    }
+    let out = cmd.env("ANTNODE_VERIF_DUMP_OPT", "1").output();
     match out {
         Ok(o) => (o.status.code(), String::from_utf8_lossy(&o.stdout).to_string(), String::from_utf8_lossy(&o.stderr).chars().take(300).collect()),
         Err(e) => (None, String::new(), format!("{e}")),
@@ -334,8 +345,8 @@ fn one_config(run: &Run, bin: &Path, choice: &[usize], evm: usize, auto_restart_
         run.violation("upgrade-keeps-settings", "environment", format!("environment {:?} at installation, {:?} after an upgrade ({desc})", install_ctx.environment, upgrade_ctx.environment), desc.clone());
     }
     // both argument lists are accepted by the node binary and mean the same, intended configuration
-    let (c1, dump1, err1) = run_antnode(bin, &install_ctx.args);
-    let (c2, dump2, err2) = run_antnode(bin, &upgrade_ctx.args);
+    let (c1, dump1, err1) = run_antnode(bin, &install_ctx.args, &install_ctx.environment);
+    let (c2, dump2, err2) = run_antnode(bin, &upgrade_ctx.args, &upgrade_ctx.environment);
     run.outcome(format!("{c1:?}/{c2:?}").as_bytes());
     if c1 != Some(0) {
         run.violation("antnode-accepts-arguments", "install", format!("antnode rejects the installed argument list {:?}: exit {c1:?} {err1} ({desc})", install_ctx.args), desc.clone());
@@ -362,10 +373,10 @@ pub fn main(tier: Option<&str>) {
     let d = run.pick(3, 4);
     run.rule(&format!(
         "21 installable options (ports, ip, first, local, 0-2 peers, 0-2 contact URLs, testnet, ignore-cache, cache dir, log format, log limits, \
-         owner, home-network, upnp, user mode, env vars, network id, auto-restart) x EVM network {{arbitrum-one, sepolia, custom}}: every \
+         owner, home-network, upnp, user mode, env vars (none / foreign ones / ones the node reads: ANT_PEERS, ANT_LOG), network id, auto-restart) x EVM network {{arbitrum-one, sepolia, custom}}: every \
          configuration with at most {d} options away from their defaults (each alternative value), plus all-on; configurations that antctl's \
          own PeersArgs parser rejects are skipped. Each: real add_node + real ServiceManager::upgrade against a capturing ServiceControl, both \
-         argument lists run through the antnode binary built from this tree. Non-trivial = at least one option non-default."
+         argument lists run, with the definition's environment, through the antnode binary built from this tree. Non-trivial = at least one option non-default."
     ));
     run.assume("the full product (about 1.4e7 installs) is out of budget: the enumeration is bounded by the number of non-default options");
     run.assume("UpgradeOptions are built as cmd/node.rs builds them; the auto_restart initialiser is read from that source file and interpreted (false | true | node.auto_restart)");
@@ -374,7 +385,7 @@ pub fn main(tier: Option<&str>) {
         run.machinery_error("the antnode binary (built with --features verif-hooks) is not next to vcheck-pure; bin/check builds it");
     };
     // the hook must answer, otherwise the binary would really start a node
-    let (code, dump, err) = run_antnode(&bin, &["--rewards-address".into(), format!("{}", RewardsAddress::from([0x11u8; 20])).into(), "evm-arbitrum-one".into()]);
+    let (code, dump, err) = run_antnode(&bin, &["--rewards-address".into(), format!("{}", RewardsAddress::from([0x11u8; 20])).into(), "evm-arbitrum-one".into()], &None);
     if code != Some(0) || !dump.contains("Opt {") {
         run.machinery_error(&format!("antnode does not answer the option-dump hook (exit {code:?}, {err}); it must be built with --features verif-hooks"));
     }
